@@ -185,6 +185,7 @@ static const cfg_t *CUR;
  * the same whatever other dimensions the failing case happened to carry. */
 typedef struct { char clause[40], family[48], msg[1500]; } failure_t;
 static failure_t FAILS[8]; static int nfails;
+static int sample_this = 1;
 static int counting;   /* 1 while executing the configuration under test, 0 while probing reduced ones */
 static void fail(const char *clause, const char *family, const char *fmt, ...)
 {
@@ -716,6 +717,8 @@ static int execute(const cfg_t *c)
     vf_rng_init(&o_rng, vf_seed, h);
     for (int i = 0; i < 48; i++) ext_psk[i] = (unsigned char) (0x30 + i * 5);
     if ((why = static_gap(c))) { STAT("not_mutually_supported", 1); STATF(1, "not_mutually_supported_%s", why); return -1; }
+    STAT("cases", 1);   /* executions: configurations actually run against OpenSSL */
+    STATF(1, "cases_%s_%s", mx_vername[c->ver], rolename[c->role]);
     SSL_CTX *ctx = o_ctx_new(c, &why);
     if (!ctx) { STAT("not_mutually_supported", 1); STATF(1, "not_mutually_supported_%s", why); return -1; }
     sslKeys_t *mk = m_keys_new(c, &why);
@@ -785,8 +788,6 @@ static void run_config(void *arg)
 {
     const cfg_t *c = arg; const mx_suite_t *s = &mx_suites[c->suite];
     cfg_spec(c, SPEC, sizeof SPEC);
-    vf_stat("cases", 1);
-    vf_statf(1, "cases_%s_%s", mx_vername[c->ver], rolename[c->role]);
     if (vf_verbose) fprintf(stderr, "CASE %s\n", SPEC);
     if (RAND_set_rand_method(&o_rand_meth) != 1) { vf_incon("RAND_set_rand_method failed"); return; }
     counting = 1;
@@ -795,7 +796,7 @@ static void run_config(void *arg)
     if (r == 1) {
         vf_stat("configurations_interoperated", 1);
         vf_distinct("%s", SPEC);
-        vf_sample("%s -> version %s suite %04x group %d ems %d, resumed(second) %s", SPEC, mx_vername[R1.mver], R1.msuite, s->tls13 ? R1.mgroup : R1.ogroup, R1.mems, (c->res != RS_NONE && c->res != RS_EXTPSK) ? "yes" : "n/a");
+        if (sample_this) vf_sample("%s -> version %s suite %04x group %d ems %d, resumed(second) %s", SPEC, mx_vername[R1.mver], R1.msuite, s->tls13 ? R1.mgroup : R1.ogroup, R1.mems, (c->res != RS_NONE && c->res != RS_EXTPSK) ? "yes" : "n/a");
     }
     if (r != 0) return;
     /* isolate the responsible dimensions: reset one at a time to its default, keep the reset if the same clause still fails */
@@ -945,6 +946,7 @@ int main(int argc, char **argv)
         if (lim && i >= lim) break;
         if (!vf_mine(i)) continue;
         char spec[400]; cfg_spec(&CF[i], spec, sizeof spec);
+        sample_this = (i % (vf_thorough ? 997 : 41)) == 0;
         vf_fork_case(run_config, &CF[i], "interop", spec, 900);
     }
     if (vf_shard == 0) { vf_stat("configurations_enumerated", ncf); vf_fork_case(static_ecdh_suites, NULL, "interop", "static-ecdh-suites", 60); }
